@@ -4,6 +4,7 @@ package main
 
 import (
 	"fmt"
+	"github.com/onheap/eval"
 	"math/rand"
 	"strings"
 	"unicode"
@@ -143,7 +144,7 @@ func init() {
 					u = append(u, "string class never dumped: "+c.name)
 				}
 			}
-			for _, c := range []string{"roundtrips", "dump_with_if", "dump_with_list", "dump_events_mode", "folded_to_scalar", "zero_operand_ops"} {
+			for _, c := range []string{"roundtrips", "dump_with_if", "dump_with_list", "dump_events_mode", "folded_to_scalar", "zero_operand_ops", "deep_ladder_dumps"} {
 				if m.C(c) == 0 {
 					u = append(u, c+" = 0")
 				}
@@ -227,8 +228,68 @@ func c13Tree(r *rand.Rand, k int) (*Node, string) {
 	return g.Root(s.Dep(r)), s.Name
 }
 
+// c13Deep: Dump indents by nesting depth, so its text grows with the square of the depth: a few thousand levels of
+// else-if give a text of tens of megabytes from a source of some ten kilobytes. It must compile like any other dump.
+func c13Deep(w *W, r *rand.Rand, depth int) {
+	var sb strings.Builder
+	for i := 0; i < depth; i++ {
+		fmt.Fprintf(&sb, "(if (= i0 %d) %d ", i, i*3+1)
+	}
+	sb.WriteString("-1")
+	sb.WriteString(strings.Repeat(")", depth))
+	src := sb.String()
+	cc := eval.NewConfig(eval.Optimizations(false))
+	cc.VariableKeyMap["i0"] = 1
+	e1, co := compileGuard(cc, src)
+	w.Evals++
+	if co.Panic != nil || co.Err != nil {
+		w.Fail("deep-source-rejected", "a %d-level else-if ladder (%d bytes) does not compile: %s", depth, len(src), co)
+		return
+	}
+	d1, do := dumpGuard(e1)
+	if do.Panic != nil {
+		w.Fail("dump-panic/deep", "Dump panicked on a %d-level ladder: %v", depth, do.Panic)
+		return
+	}
+	w.Inc("deep_ladder_dumps")
+	w.Max("largest_dump_bytes", int64(len(d1)))
+	c2 := eval.NewConfig(eval.Optimizations(false))
+	c2.VariableKeyMap["i0"] = 1
+	e2, co2 := compileGuard(c2, d1)
+	w.Evals++
+	if co2.Panic != nil || co2.Err != nil {
+		w.Fail("dump-does-not-compile/deep", "the Dump text (%d bytes) of a compiled %d-level else-if ladder (source %d bytes) does not compile: %s", len(d1), depth, len(src), firstN(fmt.Sprint(co2), 300))
+		return
+	}
+	d2, _ := dumpGuard(e2)
+	if d1 != d2 {
+		w.Fail("dump-not-stable/deep", "dumping the recompiled %d-level ladder gives a different text (%d vs %d bytes)", depth, len(d1), len(d2))
+	}
+	for _, x := range []int64{0, int64(depth / 2), int64(depth - 1), int64(depth), -7} {
+		vals := map[string]interface{}{"i0": x}
+		o1 := guard(func() (eval.Value, error) { return e1.Eval(eval.NewCtxFromVars(cc, vals)) })
+		o2 := guard(func() (eval.Value, error) { return e2.Eval(eval.NewCtxFromVars(c2, vals)) })
+		w.Evals += 2
+		want := int64(-1)
+		if x >= 0 && x < int64(depth) {
+			want = x*3 + 1
+		}
+		if !outcomeEq(o1, o2) || o1.Err != nil || !valEq(o1.V, want) {
+			w.Fail("recompiled-dump-differs/deep", "i0=%d: original %s, recompiled dump %s, expected %d", x, o1, o2, want)
+		}
+	}
+}
+
 func c13Run(w *W, idx int) {
 	r := w.Rand(idx)
+	if idx%40000 == 11 {
+		depth := 3000
+		if idx > 40000 {
+			depth = []int{3500, 4000}[r.Intn(2)]
+		}
+		c13Deep(w, r, depth)
+		return
+	}
 	tree, stratum := c13Tree(r, idx)
 	src := tree.Prefix()
 	w.Inc("programs")
